@@ -230,7 +230,8 @@ def gen_script(rnd, k):
     cards = g.cards()
     tags = set()
     kind = g.weighted([(6, "plain"), (3, "define-fun"), (2, "swap-let"), (2, "def-capture"), (2, "let-capture"),
-                       (1, "def-shadow"), (2, "get-value"), (2, "stack"), (2, "chain"), (2, "rebind-let")])
+                       (1, "def-shadow"), (2, "get-value"), (2, "stack"), (2, "chain"), (2, "rebind-let"),
+                       (1, "redefine-after-pop")])
     nform = g.weighted([(5, 1), (3, 2), (1, 3)]) if kind != "stack" else rnd.randint(2, 4)
     forms = [g.term(BOOL) for _ in range(nform)]
     ns = set()
@@ -375,6 +376,32 @@ def gen_script(rnd, k):
                 tags.add("let-rebinds-parameter")
                 body_lines.append("(define-fun rbdef ((%s %s)) Bool %s)" % (w.name(A), sort_text(T), inner))
                 body_lines.append("(assert (rbdef %s))" % w.term(e1))
+    elif kind == "redefine-after-pop":
+        # a definition made inside a level disappears with the level: the name may be defined again, differently
+        T = g.choice([INT, REAL, BV(2), BOOL])
+        gb = G(cfg=Cfg(max_depth=2, theories={"bool", "int", "real", "bv"}, bv_widths=[1, 2], share=20), rnd=rnd)
+        a = ("a?", T)
+        tags.add("redefinition-after-pop")
+        forms = []
+        for round_ in (0, 1):
+            gb.pool = {T: [sym(*a), g.symbol(T), sym(*a)]}
+            body = gb.term(BOOL, 2)
+            if sym(*a) not in subterms(body):
+                body = app("AND", body, app("EQUALS" if T != BOOL else "IFF", sym(*a), g.term(T, 1)))
+            val = g.term(T, 1)
+            extra_decl_forms += [names.rename(body, {"a?": "rd!c"}), val]
+            if round_ == 0:
+                body_lines.append("(push 1)" if rnd.random() < 0.6 else "(push)")
+            body_lines.append("(define-fun |rd!c| () %s %s)" % (sort_text(T), w.term(val)))
+            body_lines.append("(define-fun |rd!f| ((|a?| %s)) Bool %s)" % (sort_text(T), w.term(body)))
+            body_lines.append("(assert (|rd!f| |rd!c|))")
+            if round_ == 0:
+                body_lines.append("(pop 1)")
+        dl0 = declarations([x for x in extra_decl_forms], w)
+        lines += [d for d in dl0 if "|rd!c|" not in d and " rd!c " not in d]
+        lines += body_lines
+        body_lines = []
+        extra_decl_forms = []
     elif kind in ("def-capture", "let-capture", "def-shadow"):
         # Q v:T. B(v, c)  with c a global of sort T
         T = g.choice([INT, REAL, BV(2), BOOL])
